@@ -763,6 +763,7 @@ def _c11_extra():
     attempt("seed_calls", lambda: c11_state.seed_tables()[0], c11_state.SEED_CALLS_FALLBACK)
     attempt("ratio_guard", c11_state.ratio_guard, c11_state.RATIO_FALLBACK)
     attempt("engine_sites", c11_state.engine_sites, c11_state.ENGINE_SITES_FALLBACK)
+    attempt("enum_compares", c11_state.enum_compares, c11_state.ENUM_COMPARES_FALLBACK)
     attempt("vsharp_ssl_engine_kpath", lambda: _engine_kpath("VSharpNetSSLEngine", "vsharp_ssl_engine_kpath", VSHARP),
             "def vsharp_ssl_engine_kpath : List String := " + _lstr(_VSHARP_KPATH) + "\n")
     attempt("vsharp_jssl_engine_kpath", lambda: _engine_kpath("VSharpNetJSSLEngine", "vsharp_jssl_engine_kpath", VSHARP),
